@@ -288,6 +288,9 @@ func c12URLRules(w *world.World, gc, cr bool, urls []string) string {
 			if want != "" && !strings.Contains(u, want) {
 				return fmt.Sprintf("the PCK CRL request %q does not name the CA that issued the PCK certificate (%s)", u, want)
 			}
+			if want == "" {
+				return fmt.Sprintf("the PCK CRL request %q names a CA, but the PCK certificate was issued by %q — neither the platform nor the processor CA", u, leaf.Issuer.CommonName)
+			}
 		}
 	}
 	return ""
